@@ -42,7 +42,7 @@ def parseUrrRules (s : String) : List RuleIE :=
 def parsePdrRules (s : String) : List RuleIE :=
   (listOf s).map fun t =>
     match splitOn1 t '/' with
-    | [i, us, ip] =>
+    | i :: us :: ip :: _ =>      -- (a fourth field `L`: the PDR ID child comes last in the IE — no difference to what the IE says)
       { id := parseId i,
         urrs := if us == "" then [] else (splitOn1 us '+').map natD,
         ueip := if ip == "" then none else parseHexBytes ip }
